@@ -345,6 +345,104 @@ def judge(case, log, tr, end):
     return ok(**info)
 
 
+class _TlsView:
+    """Adapter so that judge() can read a ServerConn like a FakeTransport."""
+
+    def __init__(self, conn):
+        self.conn = conn
+        self.events = []
+        if conn.tx_after_fin:
+            self.events.append(("after-fin", conn.tx_after_fin))
+
+    def written(self):
+        return bytes(self.conn.client.plain)
+
+    def closed_by_app(self):
+        return self.conn.server_closed or self.conn.tcp.closing
+
+
+def run_tls(case: dict):
+    """Same cases through the real TLS stacks in memory (both backends)."""
+    import asyncio
+    import ssl
+
+    from vlib import memnet, stacks
+
+    setup_logging()
+    data = s2b(case["data"])
+    chunks = split_at(data, case["cuts"])
+    backend = case.get("backend", "stdlib")
+    mode = case.get("tls_mode", "separate")
+
+    async def scenario(loop):
+        sim = srvsim.Sim(loop)
+        handler = srvsim.build_handler(sim, case["handler"])
+        if case["routing"] == "router-404":
+            handler = _router_with_default(handler)
+        mw = srvsim.build_middleware(sim, case["middleware"])
+        up = srvsim.build_upload(sim, case["upload"])
+        factory, sslctx = stacks.manual_stack(backend, handler, mw, up)
+        v = ssl.TLSVersion.TLSv1_2 if case.get("tls") == "1.2" else ssl.TLSVersion.TLSv1_3
+        conn = memnet.ServerConn(loop, factory, sslctx, memnet.permissive_client_ctx(minv=v, maxv=v), auto_close=False)
+        if not await conn.handshake():
+            return sim, conn, {"disconnected": False, "trace": ["handshake-failed"]}
+        disconnected = False
+        pending = b""
+        for i, ch in enumerate(chunks):
+            conn.client.to_send += ch
+            conn.client.step()
+            out = conn.client.take()
+            if mode == "coalesce":
+                pending += out
+            else:
+                conn.tcp.feed(out)
+                await vloop.settle(3)
+            if case["disconnect"] and i == len(chunks) // 2 and not disconnected and mode != "coalesce":
+                disconnected = True
+                conn.client_close()
+                await vloop.settle(3)
+                break
+        if pending:
+            conn.tcp.feed(pending)
+        await vloop.settle(6)
+        conn.client.step()
+        sim.release_all()
+        await conn.pump()
+        await asyncio.sleep(200)
+        conn.auto_close = True
+        await conn.pump()
+        await asyncio.sleep(100)
+        await conn.pump()
+        return sim, conn, {"disconnected": disconnected, "trace": [mode]}
+
+    try:
+        sim, conn, end = vloop.run(scenario)
+    except vloop.Deadlock as e:
+        return viol("harness-deadlock", str(e))
+    if end["trace"] == ["handshake-failed"]:
+        return viol("handshake-failed", repr(conn.client.error))
+    view = _TlsView(conn)
+    v = judge(case, sim.log, view, end)
+    if v.kind != "violation":
+        if conn.tx_after_fin:
+            return viol("bytes-after-close", f"{conn.tx_after_fin} bytes transmitted after FIN", **v.info)
+        if conn.client.error is not None and not conn.client.got_close_notify and not end["disconnected"]:
+            # stream ended without close_notify: recorded, not a violation of the statement
+            v.info["ragged_end"] = repr(conn.client.error)[:80]
+    v.info["backend"] = backend
+    return v
+
+
+@st.composite
+def tls_case_st(draw):
+    c = draw(case_st())
+    c["backend"] = draw(st.sampled_from(["stdlib", "pyopenssl"]))
+    c["tls_mode"] = draw(st.sampled_from(["separate", "coalesce"]))
+    c["tls"] = draw(st.sampled_from(["1.3", "1.3", "1.2"]))
+    c["schedule"] = []
+    return c
+
+
 def _nontrivial(case, v):
     if v.info.get("S", "") == "" and v.kind == "ok":
         return False
@@ -378,7 +476,24 @@ def _bucket(case, v):
     return v.clause
 
 
+def _labels_tls(case, v):
+    return _labels(case, v) + [case["backend"], "mode:" + case["tls_mode"], "tls" + case["tls"]]
+
+
 LANES = [
+    Lane(
+        name="tls",
+        run_case=run_tls,
+        strategy=tls_case_st,
+        budget={"quick": 2400, "thorough": 40000},
+        shards={"quick": 16, "thorough": 32},
+        nontrivial=_nontrivial,
+        labels=_labels_tls,
+        bucket=lambda c, v: v.clause + ":" + c.get("backend", ""),
+        rule="same scripts through the real stdlib-SSL and PyOpenSSL stacks in memory; request chunks as separate "
+             "TLS records, delivered separately or coalesced into one TCP read; client-visible stream = what the "
+             "harness TLS end decrypts",
+    ),
     Lane(
         name="proto",
         run_case=run_proto,
